@@ -179,8 +179,15 @@ fn context_case(g: &mut crate::gen::Gen) -> Verdict {
     let h = if wide { g.range(2, 3) } else { g.range(1, 10) } as usize;
     let sparse = g.chance(1, 4);
     let mut src = || g.byte();
-    let family = if wide { 2 } else if sparse { 5 } else { 4 };
-    let (y, cb, cr) = super::c08::planes(w, h, family, &mut src);
+    let family = if sparse { 5 } else { 4 };
+    let (y, cb, cr) = if wide {
+        // thousands of samples per row: non-periodic bytes expanded from one tape word
+        let seed = ((src() as u64) << 8 | src() as u64) << 16 | w as u64;
+        let (cw, ch) = ((w + 1) / 2, (h + 1) / 2);
+        (super::content_bytes(seed, w * h), super::content_bytes(seed ^ 0xCB, cw * ch), super::content_bytes(seed ^ 0xC4, cw * ch))
+    } else {
+        super::c08::planes(w, h, family, &mut src)
+    };
     g.describe(|| json!({"w": w, "h": h, "y": y, "cb": cb, "cr": cr}));
     // the planes are handed over at byte offsets 0..3 of their buffers (slices of packed frames)
     let offs = (g.below(4) as usize, g.below(4) as usize, g.below(4) as usize);
